@@ -35,7 +35,28 @@ def main():
     ap.add_argument('worktree')
     ap.add_argument('--checks', default=None)
     ap.add_argument('--needs', default='')
+    ap.add_argument('--recheck', action='store_true', help='seed already confirmed and recorded: only re-run the checks')
     a = ap.parse_args()
+    if a.recheck:
+        dst = os.path.join(VERIF, 'seeded', a.seed_id)
+        meta = json.load(open(os.path.join(dst, 'meta.json')))
+        checks = (a.checks or a.prop).split(',')
+        rc, out = sh(f'git -C /repo apply {dst}/patch.diff')
+        if rc != 0:
+            print('patch does not apply to /repo:', out)
+            return 1
+        try:
+            for pid in checks:
+                rc, out = sh(f'./verif check {pid} --jobs 16', cwd=VERIF)
+                lines = [l for l in out.splitlines() if l.startswith(('VIOLATION', 'KNOWN-FINDING', 'ENGINE-ERROR', 'UNDECIDED'))]
+                meta['check_results'][pid] = {'exit': rc, 'lines': [l[:300] for l in lines][:12]}
+                print(f'{pid}: exit {rc}')
+        finally:
+            sh('git -C /repo checkout -- .')
+        meta['detected'] = any(r['exit'] == 1 for r in meta['check_results'].values())
+        json.dump(meta, open(os.path.join(dst, 'meta.json'), 'w'), indent=1)
+        print('rechecked', a.seed_id, 'detected =', meta['detected'])
+        return 0
     patch = os.path.join(a.src, 'patch.diff')
     demo = os.path.join(a.src, 'demo.py')
     wt = a.worktree
